@@ -1316,8 +1316,15 @@ impl TypeChecker {
                 }))
             }
             DeclarationKind::Enum(Some((ty, variant))) => {
-                if let Some(_field) = idents.next() {
-                    todo!("make a nice error for variant cannot have field")
+                if let Some(field) = idents.next() {
+                    return Err(self.error_simple(
+                        format!(
+                            "cannot access `{}` on the enum variant `{}`",
+                            field.node, variant.name,
+                        ),
+                        "an enum variant has no fields or methods",
+                        field.id,
+                    ));
                 }
                 Ok(ResolvedPath::EnumConstructor {
                     ty: ty.clone(),
